@@ -8,9 +8,9 @@ HARNESS_BUILD_FLAGS = pubrunner.HARNESS_BUILD_FLAGS
 SPEC = {
     "runners": [
         {"kind": "pubscript", "name": "scripted", "module": "CorrC06", "corr": "Run/CorrPub.v (Model/Pub.v vs /repo/publisher, scripted schedules, monitor mon06)",
-         "rule": "scripted: each case = one script (Subscribe / Publish / non-blocking receive stimuli, then a drain) applied to the real publisher package one stimulus at a time with a wait for quiescence after each; the observed trace (receive outcomes, channel lengths, live delivery goroutines, filter invocations) is replayed through the model by Coq, which also evaluates the C06 monitor (every received value was published, visited this subscriber, is accepted by its filter and is new; after the drain every accepted pair has been received). distinct = by (family, stimuli); non-trivial = something was received and either a delivery had to wait for buffer room / a receiver, or there are >= 2 subscribers. Generation: exhaustive stimulus sequences for one and two subscribers (the filtered ones also carry OnFiltered / OnTimeout), a 12-subscriber matrix filter x OnFiltered x OnTimeout, + seeded random scripts with random callbacks."},
+         "rule": "scripted: each case = one script (Subscribe / Publish / non-blocking receive stimuli, then a drain) applied to the real publisher package one stimulus at a time with a wait for quiescence after each; the observed trace (receive outcomes, channel lengths, live delivery goroutines, filter invocations) is replayed through the model by Coq, which also evaluates the C06 monitor (every received value was published, visited this subscriber, is accepted by its filter and is new; after the drain every accepted pair has been received). distinct = by (family, stimuli); non-trivial = something was received and either a delivery had to wait for buffer room / a receiver, or there are >= 2 subscribers. Generation: exhaustive stimulus sequences for one and two subscribers (the filtered ones also carry OnFiltered / OnTimeout), a 12-subscriber matrix filter x OnFiltered x OnTimeout, churn (every sequence over {Subscribe a new one, close the oldest open subscriber, close the newest, Publish} after two subscribers: whoever is subscribed and not closed at a Publish must be visited and receive the message exactly once), + seeded random scripts with random callbacks. The monitor also requires every Publish to visit every existing, not yet closed subscriber, no closed one, none twice."},
         {"kind": "pubstress", "name": "stress", "mode": "c06", "corr": "Go-side monitor (harness/cmd/pubstress -mode c06, -race)",
-         "rule": "free-running (-race): each round = P concurrent publishers x N tagged messages, S subscribers (buffers 0-4, filters by tag, OnFiltered / OnTimeout present or nil at random, some subscribing while publishing is under way), receivers drain; OnFiltered count = rejected messages, OnTimeout never; per subscriber the received multiset must equal {published and accepted} exactly (subset + no duplicates for late subscribers); evaluations = (message, subscriber) pairs checked."},
+         "rule": "free-running (-race): each round = P concurrent publishers x N tagged messages, S subscribers (buffers 0-4, filters by tag, OnFiltered / OnTimeout present or nil at random, some subscribing while publishing is under way, some of the initial ones closed while publishing is under way and before the late ones join), receivers drain; OnFiltered count = rejected messages, OnTimeout never; per subscriber the received multiset must equal {published and accepted} exactly (subset + no duplicates for late subscribers); evaluations = (message, subscriber) pairs checked. Then a size sweep of the same round with fixed dimensions: quick 3 (64 subscribers; buffer 2048 with 4500 messages; unbuffered with 5000 messages), thorough every combination of subscribers {1,4,16,64,256} x buffer {0,1,8,64,512,4096} x messages {1,16,256,2048,16384} (up to 300000 pairs each)."},
     ],
     "trusted": ["sync.Map (Range/Store/LoadAndDelete), channels/select, time.After, sync.RWMutex are modelled by contract (atomic steps of Model/Pub.v; Range contract = guards of Visit/PubEnd)",
                 "the harness's placement of internal steps (Enter/Deliver/Timeout/Drop) in observed traces; Coq checks that the placed trace is a behaviour of the model and that nothing required is missing at quiescence",
